@@ -1,2 +1,6 @@
 import Tx3Model.Basic
 import Tx3Model.Assets
+import Tx3Model.Tir
+import Tx3Model.Reduce
+import Tx3Model.CompilerOps
+import Tx3Model.SpecTir
